@@ -55,6 +55,9 @@ func genCtl(r *simrt.Rand, tier string, flavor string) json.RawMessage {
 	if (flavor == "C20" || flavor == "C18") && r.Bool(0.12) {
 		return genCtlSelfRemovalDuringAnotherChange(r, c)
 	}
+	if (flavor == "C20" || flavor == "C18") && r.Bool(0.06) {
+		return genCtlLongMembershipHistory(r, c)
+	}
 	slot := 0
 	nodes := c.Nodes
 	maxNodes := 5
@@ -254,6 +257,31 @@ func genCtlSelfRemovalDuringAnotherChange(r *simrt.Rand, c W3Case) json.RawMessa
 		W3Op{K: "removenode", Node: x, A: x},
 		W3Op{K: "wait", Ms: r.Range(2000, 6000)},
 		W3Op{K: "create", Node: 1, DS: 1, P: r.Range(1, 2), R: r.Range(1, 2)})
+	b, _ := json.Marshal(CtlCase{W3: c})
+	return b
+}
+
+// genCtlLongMembershipHistory: a dataset is created and deleted, another one stays; four
+// nodes join and then members are removed, taken out of service and brought back, one
+// after the other, many times: far more membership changes than any fixed-size queue
+// between the membership log and its subscribers can hold. Whatever a deleted dataset
+// (or anything else) left subscribed must not stop the membership log from being applied.
+func genCtlLongMembershipHistory(r *simrt.Rand, c W3Case) json.RawMessage {
+	c.Nodes = 1
+	c.Faults = false
+	c.Cfg.Net = NetCfg{MinLatMs: 1, JitterMs: r.Range(0, 4)}
+	c.Ops = append(c.Ops, W3Op{K: "create", Node: 1, DS: 1, P: r.Range(1, 2), R: 1},
+		W3Op{K: "delete", Node: 1, DS: 1},
+		W3Op{K: "create", Node: 1, DS: 2, P: r.Range(1, 2), R: r.Range(1, 2)})
+	for n := 2; n <= 5; n++ {
+		c.Ops = append(c.Ops, W3Op{K: "join", Node: n})
+	}
+	for i, k := 0, r.Range(6, 9); i < k; i++ {
+		t := 2 + (i+r.Intn(2))%4
+		// (B: 1 - the removed node is taken out of service for sure, so that it can come back)
+		c.Ops = append(c.Ops, W3Op{K: "removenode", Node: 1, A: t, B: 1}, W3Op{K: "wait", Ms: r.Range(100, 1500)},
+			W3Op{K: "rejoin", Node: t, A: 1})
+	}
 	b, _ := json.Marshal(CtlCase{W3: c})
 	return b
 }
@@ -571,7 +599,7 @@ func (r *W3Run) execCtlOps(st *ctlState) {
 			}
 			if h.done && h.err == nil && !overlap {
 				st.removed[op.A] = true
-				if target.alive && (r.c.Cfg.Seed>>(uint(i)%32))&1 == 1 {
+				if target.alive && op.B == 0 && (r.c.Cfg.Seed>>(uint(i)%32))&1 == 1 {
 					// ... or forgets to: the removed node's process keeps running (it is never
 					// restarted and nothing is asserted about it); the remaining members must
 					// not depend on it going away, in particular not when it was the leader
